@@ -114,14 +114,23 @@ def int_eval(fn, env: dict[str, object], consts: dict[str, object] | None = None
             left = ev(e.left, loc)
             for op, c in zip(e.ops, e.comparators):
                 right = ev(c, loc)
-                ok = {ast.Lt: left < right, ast.LtE: left <= right, ast.Gt: left > right, ast.GtE: left >= right,
-                      ast.Eq: left == right, ast.NotEq: left != right}.get(type(op))
+                if isinstance(op, (ast.In, ast.NotIn)):
+                    ok = (left in right) if isinstance(op, ast.In) else (left not in right)
+                elif isinstance(op, (ast.Is, ast.IsNot)):
+                    ok = (left is right) if isinstance(op, ast.Is) else (left is not right)
+                else:
+                    ok = {ast.Lt: lambda: left < right, ast.LtE: lambda: left <= right, ast.Gt: lambda: left > right,
+                          ast.GtE: lambda: left >= right, ast.Eq: lambda: left == right,
+                          ast.NotEq: lambda: left != right}.get(type(op))
+                    ok = ok() if ok is not None else None
                 if ok is None:
                     raise AnalysisError(f'int_eval: comparison {txt!r} not modelled')
                 if not ok:
                     return False
                 left = right
             return True
+        if isinstance(e, (ast.Tuple, ast.List, ast.Set)):
+            return tuple(ev(x, loc) for x in e.elts)
         if isinstance(e, ast.Call) and isinstance(e.func, ast.Name) and e.func.id == 'int' and len(e.args) == 1:
             return int(ev(e.args[0], loc))
         if isinstance(e, ast.Call) and isinstance(e.func, ast.Name) and e.func.id in ('min', 'max'):
